@@ -1,7 +1,7 @@
 (* C19 -- Type descriptions round-trip and inferred schemas accept their data.
    Only statements, each closed by [exact] of a lemma from PV.Proofs.Types*. *)
 From Coq Require Import ZArith NArith List Bool String.
-Require Import PV.Base.Val PV.Gen.TypeTables PV.Model.Types PV.Proofs.TypesJson PV.Proofs.TypesRows PV.Proofs.TypesInfer.
+Require Import PV.Base.Val PV.Gen.TypeTables PV.Model.Types PV.Proofs.TypesJson PV.Proofs.TypesRows PV.Proofs.TypesInfer PV.Proofs.TypesEqv.
 Import ListNotations.
 Open Scope Z_scope.
 
@@ -20,6 +20,11 @@ Proof. exact parse_json_value_nofuel. Qed.
    dicts re-ordered *)
 Theorem C19_json_string_roundtrip : forall t : dtype, parse_json_string_of t = Ok (tsort t).
 Proof. exact json_string_roundtrip. Qed.
+
+(* ... and that tree equals the original as Python compares types: [teqv] is structural equality in which the
+   metadata dicts are compared as dicts (same entries, any order; [jeqv] on nested JSON values) *)
+Theorem C19_json_string_roundtrip_equal : forall t : dtype, teqv t (tsort t).
+Proof. exact tsort_eqv. Qed.
 
 (* the decimal(p,s) string form, for every precision and every (also negative) scale *)
 Theorem C19_decimal_string : forall (p : N) (s : Z), parse_type_string (decimal_str p s) = Ok (TDecimal p s).
